@@ -29,7 +29,7 @@ AGG = {
                      "declarations with implementing definitions (documented or not), ordinary commands; projection "
                      "compared: the argument of every function directive stemming from a function/macro"),
     "C09": dict(invs=["C09_Classes"], judge=lambda b: not b["dimpl"],
-                quick=[("MC_C09", 5, 2), ("MC_C09b", 8, 1)], thorough=[("MC_C09", 7, 3), ("MC_C09b", 11, 1)], sim=[("MC_C09", 16, 4)],
+                quick=[("MC_C09", 5, 2), ("MC_C09b", 8, 1)], thorough=[("MC_C09", 7, 3), ("MC_C09b", 9, 1)], sim=[("MC_C09", 16, 4)],
                 rule="TLC enumerates class structures (bases, attributes with/without default, members with 0-2 types "
                      "incl. args, constructors, implementing functions/macros with 1-4 parameters under the member "
                      "strip pattern, nesting); projection compared: py:class/py:method/py:attribute nesting and order, "
